@@ -1,6 +1,6 @@
 (* Single entry point of the extracted model: one case in, one canonical ASCII line out. *)
 From Coq Require Import String.
-From Ruler Require Import Bytes Show Base62 Sha256 Bincode StateFiles Bundle RuleSyntax Parser TopoSort ShowRules World Ops Concrete.
+From Ruler Require Import Bytes Show Base62 Sha256 Bincode StateFiles Bundle RuleSyntax Parser TopoSort ShowRules World Ops Concrete Server Protocol.
 
 (* operations as the harness writes them: names are the 43-character text forms, state files raw bytes *)
 Inductive xop :=
@@ -46,7 +46,9 @@ Inductive case :=
 | CBundle (lines : list bytes)
 | CTopo (rules : list rule) (goal : option bytes)
 | CRuleTicket (r : rule)
-| CHistory (coarse : bool) (t0 : N) (ops : list xop).
+| CHistory (coarse : bool) (t0 : N) (ops : list xop)
+| CTrace (rules_text : bytes) (goal : option bytes) (is_clean : bool) (events : list event)
+| CServe (cache : list (bytes * bytes)) (hist : list (bytes * bytes)) (requests : list (list bytes)).
 
 Definition show_dec_err (e : dec_err) : bytes :=
   match e with
@@ -73,6 +75,37 @@ Definition run_case (c : case) : bytes :=
   | CBundle ls => show_bundle (parse_lines ls)
   | CTopo rs g => show_toposort (toposort rs g)
   | CRuleTicket r => show_bytes (rule_ticket r)
+  | CTrace text goal is_clean evs =>
+      match parse text with
+      | Err _ => lit "(noplan)"
+      | Ok rules =>
+          match toposort rules goal with
+          | Err _ => lit "(noplan)"
+          | Ok pack =>
+              let g := if is_clean then clean_graph_of_pack pack else graph_of_pack pack in
+              match first_bad g (Protocol.init_pstate g) evs O with
+              | Some i => paren [lit "bad"; show_nat i]
+              | None =>
+                  match run_events g (Protocol.init_pstate g) evs with
+                  | Some s => if finished g s then lit "(ok finished)" else lit "(ok unfinished)"
+                  | None => lit "(bad)"
+                  end
+              end
+          end
+      end
+  | CServe cache hist reqs =>
+      let rd : rdir cticket :=
+        mk_rdir true
+          (Some (flat_map (fun e => match decode62 (fst e) with
+                                    | Ok t => [(t, mk_file (snd e) 1 false)]
+                                    | Err _ => []
+                                    end) cache))
+          (Some (flat_map (fun e => match decode62 (fst e) with
+                                    | Ok t => [(t, history_of_raw (snd e))]
+                                    | Err _ => []
+                                    end) hist))
+          None in
+      show_list (fun r => show_response (respond rd r)) reqs
   | CHistory coarse t0 ops =>
       show_history_run (if coarse then Coarse else Fine) t0 (flat_map cop_of ops)
   end.
